@@ -227,7 +227,8 @@ def r1(repo, chk, ref):
         reps = representatives(consts)
         bad = []
         n = 0
-        for L in range(0, 4):
+        maxlen = 4 if getattr(chk, "tier", "quick") == "thorough" else 3
+        for L in range(0, maxlen + 1):
             for shape in itertools.product(reps, repeat=L):
                 if what == "name" and L == 0:
                     continue
@@ -235,7 +236,7 @@ def r1(repo, chk, ref):
                 if d.decide(shape) != oracle(shape):
                     bad.append(bytes(shape))
         total += n
-        chk.ob("R1", f"{fname}: all {what}s of length <= 3 over the {len(reps)} partition representatives agree with the reference", not bad, f"{len(bad)} disagreements, e.g. {bad[:4]}", fn.loc(fn.node), {"representatives": reps, "evaluated": n})
+        chk.ob("R1", f"{fname}: all {what}s of length <= {maxlen} over the {len(reps)} partition representatives agree with the reference", not bad, f"{len(bad)} disagreements, e.g. {bad[:4]}", fn.loc(fn.node), {"representatives": reps, "evaluated": n})
         chk.ob("R5", f"{fname}: every rejection raises MessageError", d.raised <= {"MessageError"} and bool(d.raised), f"raises {sorted(map(str, d.raised))}", fn.loc(fn.node))
         chk.count(f"{fname}_constants", {k: sorted(x for x in v if isinstance(x, int)) for k, v in d.ev.constants.items()})
     chk.count("R1_decisions", total)
